@@ -88,7 +88,17 @@ fn gen_block(r: &mut Rng, depth: usize, out: &mut String, ind: usize, n: &mut us
         match kind {
             0 => out.push_str(&format!("{pad}local {v} = 1\n")),
             1 => out.push_str(&format!("{pad}print(u{})\n", *names % 2)),
-            2 => out.push_str(&format!("{pad}local {v}, w = undefined_a, 2\n")),
+            2 => {
+                if r.chance(1, 3) {
+                    out.push_str(&format!("{pad}g0,\n{pad}"));
+                    out.push_str(&filter_comment(r, shapes, false));
+                    shapes.push("before-assignment-target");
+                    *n += 1;
+                    out.push_str(&format!("{pad}g1, t.f = undefined_a, 2, 3\n"));
+                } else {
+                    out.push_str(&format!("{pad}local {v}, w = undefined_a, 2\n"));
+                }
+            }
             3 => {
                 out.push_str(&format!("{pad}do\n"));
                 gen_block(r, depth + 1, out, ind + 1, n, shapes, names);
